@@ -595,7 +595,7 @@ struct Buf {
     mc::GuardedBlock<T> blk;
     T* front{nullptr}; // single-pass frontier
 
-    explicit Buf(std::vector<T> const& s) : blk(s.size())
+    [[gnu::noinline]] explicit Buf(std::vector<T> const& s) : blk(s.size())
     {
         for (std::size_t i = 0; i < s.size(); ++i) {
             ::new (static_cast<void*>(blk.data() + i)) T(s[i]);
@@ -603,7 +603,7 @@ struct Buf {
         }
         front = blk.data();
     }
-    Buf(std::size_t n, T const& fill) : blk(n)
+    [[gnu::noinline]] Buf(std::size_t n, T const& fill) : blk(n)
     {
         for (std::size_t i = 0; i < n; ++i) { ::new (static_cast<void*>(blk.data() + i)) T(fill); }
         front = blk.data();
@@ -625,6 +625,7 @@ struct PtrF {
     static constexpr char const* name = "ptr";
     static constexpr int rank         = 3;
     static constexpr bool checked     = false;
+    static constexpr bool reversed    = false;
     template <typename L, typename T>
     static T* at(L, Buf<T>& b, std::size_t i)
     {
@@ -641,6 +642,7 @@ struct WrapF {
     static constexpr char const* name = Rank == 1 ? "fwd" : Rank == 2 ? "bidi" : "ra";
     static constexpr int rank         = Rank;
     static constexpr bool checked     = true;
+    static constexpr bool reversed    = false;
     template <typename L, typename T>
     static It<T, Rank> at(L, Buf<T>& b, std::size_t i)
     {
@@ -659,6 +661,7 @@ struct InF {
     static constexpr char const* name = "input";
     static constexpr int rank         = 0;
     static constexpr bool checked     = true;
+    static constexpr bool reversed    = false;
     template <typename L, typename T>
     static InIt<T> at(L, Buf<T>& b, std::size_t i)
     {
@@ -674,6 +677,7 @@ struct OutF {
     static constexpr char const* name = "output";
     static constexpr int rank         = -1;
     static constexpr bool checked     = true;
+    static constexpr bool reversed    = false;
     template <typename L, typename T>
     static OutIt<T> at(L, Buf<T>& b, std::size_t i)
     {
@@ -685,24 +689,27 @@ struct OutF {
         return it.p - b.b();
     }
 };
-/// index i of the reversed view of the buffer, through the library's own reverse_iterator
+/// index i of the reversed view of the buffer, through the library's own reverse_iterator over the
+/// checked random-access wrapper (so a walk outside the block is counted, not executed)
 struct RevF {
-    static constexpr char const* name = "reverse_iterator<ptr>";
+    static constexpr char const* name = "reverse_iterator<ra>";
     static constexpr int rank         = 3;
-    static constexpr bool checked     = false;
+    static constexpr bool checked     = true;
+    static constexpr bool reversed    = true;
     template <typename L, typename T>
     static auto at(L, Buf<T>& b, std::size_t i)
     {
+        auto const base = It<T, 3>{b.e() - i, b.b(), b.e()};
         if constexpr (L::is_etl) {
-            return etl::reverse_iterator<T*>(b.e() - i);
+            return etl::reverse_iterator<It<T, 3>>(base);
         } else {
-            return std::reverse_iterator<T*>(b.e() - i);
+            return std::reverse_iterator<It<T, 3>>(base);
         }
     }
     template <typename T, typename R>
     static long off(Buf<T>& b, R it)
     {
-        return b.e() - it.base();
+        return b.e() - it.base().p;
     }
 };
 
@@ -729,7 +736,7 @@ struct Obs {
     void elem(E const& e) { num(ebase + (int(e.key) + 50) * 200 + (int(e.tag) + 50)); }
     void elem(int x) { num(x); }
     template <typename T>
-    void buf(Buf<T>& b, std::size_t from = 0, std::size_t to = std::size_t(-1))
+    [[gnu::noinline]] void buf(Buf<T>& b, std::size_t from = 0, std::size_t to = std::size_t(-1))
     {
         if (to > b.size()) { to = b.size(); }
         sep();
@@ -737,12 +744,31 @@ struct Obs {
         if (!b.blk.intact()) { canary = false; }
     }
     /// content as a multiset (order masked)
-    void bag(Buf<E>& b, std::size_t from = 0, std::size_t to = std::size_t(-1))
+    [[gnu::noinline]] void bag(Buf<E>& b, std::size_t from = 0, std::size_t to = std::size_t(-1))
     {
         if (to > b.size()) { to = b.size(); }
         sep();
         int const start = n;
         for (std::size_t i = from; i < to; ++i) { elem(b.b()[i]); }
+        std::sort(v + start, v + n);
+        if (!b.blk.intact()) { canary = false; }
+    }
+    /// content of positions [from,to) counted in the iteration order of flavour F (reversed for RevF)
+    template <typename F, typename T>
+    void view(Buf<T>& b, std::size_t from, std::size_t to)
+    {
+        if (to > b.size()) { to = b.size(); }
+        sep();
+        for (std::size_t i = from; i < to; ++i) { elem(F::reversed ? b.b()[b.size() - 1 - i] : b.b()[i]); }
+        if (!b.blk.intact()) { canary = false; }
+    }
+    template <typename F>
+    void bagv(Buf<E>& b, std::size_t from, std::size_t to)
+    {
+        if (to > b.size()) { to = b.size(); }
+        sep();
+        int const start = n;
+        for (std::size_t i = from; i < to; ++i) { elem(F::reversed ? b.b()[b.size() - 1 - i] : b.b()[i]); }
         std::sort(v + start, v + n);
         if (!b.blk.intact()) { canary = false; }
     }
@@ -775,12 +801,33 @@ struct Obs {
 // ------------------------------------------------------------------------------------------
 // the runner
 // ------------------------------------------------------------------------------------------
+/// non-owning reference to a callable returning std::string (keeps Ctx::run's template part small)
+struct TextFn {
+    void* obj;
+    std::string (*fn)(void*);
+    template <typename F>
+    explicit TextFn(F& f) : obj(static_cast<void*>(&f)), fn([](void* p) { return std::string((*static_cast<F*>(p))()); })
+    {
+    }
+    std::string operator()() const { return fn(obj); }
+};
+
+struct Exec {
+    Obs os;
+    Obs oe;
+    Probe ps;
+    Probe pe;
+    mc::Trap trap{mc::Trap::none};
+    std::uint64_t san0{0};
+    std::uint64_t san1{0};
+};
+
 struct Ctx {
     mc::Reporter& r;
     std::uint64_t evals{0};
     std::uint64_t nontrivial{0};
-    std::map<std::string, bool> wanted;
-    std::map<std::string, std::uint64_t> per_subject;
+    std::map<char const*, bool> wanted;
+    std::map<char const*, std::uint64_t> per_subject;
     bool stop{false};
 
     explicit Ctx(mc::Reporter& rep) : r(rep) { }
@@ -788,13 +835,15 @@ struct Ctx {
     {
         r.count("evaluations", evals);
         r.count("distinct_nontrivial", nontrivial);
-        r.count("subjects", per_subject.size());
+        std::map<std::string, std::uint64_t> merged;
+        for (auto const& [k, n] : per_subject) { merged[k] += n; }
+        r.count("subjects", merged.size());
         std::string s;
-        for (auto const& [k, n] : per_subject) { s += cat(k, " x", n, "; "); }
+        for (auto const& [k, n] : merged) { s += cat(k, " x", n, "; "); }
         r.note("calls compared per subject: " + s);
     }
 
-    bool want(std::string const& subject)
+    [[gnu::noinline]] bool want(char const* subject)
     {
         auto it = wanted.find(subject);
         if (it == wanted.end()) { it = wanted.emplace(subject, r.want(subject)).first; }
@@ -813,26 +862,45 @@ struct Ctx {
     /// body(lib, obs) performs the call with `lib` (Std{} or Etl{}) on fresh buffers and records
     /// everything the standard specifies; cls()/kase() are only evaluated for a report.
     template <typename Body, typename Cls, typename Case>
-    void run(std::string const& subject, bool is_nontrivial, Body&& body, Cls&& cls, Case&& kase)
+    void run(char const* subject, bool is_nontrivial, Body&& body, Cls&& cls, Case&& kase)
     {
-        Obs os;
-        Obs oe;
+        Exec x;
         g.begin();
-        body(Std{}, os);
-        Probe const ps = g;
+        body(Std{}, x.os);
+        x.ps = g;
         g.begin();
-        auto const san0  = mc::san_hits();
-        mc::Trap const t = mc::guarded([&] { body(Etl{}, oe); });
-        Probe const pe   = g;
-        auto const san1  = mc::san_hits();
+        x.san0 = mc::san_hits();
+        // the barriers keep the guard's bookkeeping stores (mc::guarded) from being optimised away or moved
+        // across a body that the compiler can see through completely
+        x.trap = mc::guarded([&] {
+            asm volatile("" ::: "memory");
+            body(Etl{}, x.oe);
+            asm volatile("" ::: "memory");
+        });
+        x.pe   = g;
+        x.san1 = mc::san_hits();
+        judge(subject, is_nontrivial, x, TextFn(cls), TextFn(kase));
+    }
+
+    [[gnu::noinline]] void judge(char const* subject, bool is_nontrivial, Exec const& x, TextFn cls, TextFn kase)
+    {
+        auto const& os = x.os;
+        auto const& oe = x.oe;
+        auto const& ps = x.ps;
+        auto const& pe = x.pe;
+        auto const t   = x.trap;
         ++evals;
         if (is_nontrivial) { ++nontrivial; }
         ++per_subject[subject];
-        if (r.outcome_set.size() < (1u << 17)) { r.outcome(mc::hash_mix(mc::hash_str(subject), oe.hash())); }
+        if (r.outcome_set.size() < (1u << 17)) { r.outcome(mc::hash_mix(mc::fnv1a(subject, std::strlen(subject)), oe.hash())); }
+        if (ps.clean() && os.canary && !os.overflow && !oe.overflow && t == mc::Trap::none && os == oe && pe.clean() && oe.canary
+            && x.san0 == x.san1) {
+            return;
+        }
 
         if (!ps.clean() || !os.canary || os.overflow || oe.overflow) {
             // the reference run itself tripped a probe: the case is not a valid input or the harness is wrong
-            r.violation("C06", "harness-self-check:" + subject, cls(), kase(),
+            r.violation("C06", cat("harness-self-check:", subject), cls(), kase(),
                 cat("reference run tripped a probe: pred_bad=", ps.pred_bad, " oob_deref=", ps.oob_deref, " oob_step=", ps.oob_step,
                     " oob_write=", ps.oob_write, " reread=", ps.reread, " canary=", os.canary, " obs_overflow=", os.overflow || oe.overflow));
             return;
@@ -856,9 +924,84 @@ struct Ctx {
                 cat("iterator used outside its range: dereference x", pe.oob_deref, " step x", pe.oob_step, " write x", pe.oob_write));
         }
         if (!oe.canary) { r.violation("C02", subject, cat(cls(), "/canary"), kase(), "bytes outside a caller-supplied range were modified"); }
-        if (san1 != san0) { r.violation("C02", subject, cat(cls(), "/sanitizer"), kase(), "ASan/UBSan report (see job log)"); }
+        if (x.san1 != x.san0) { r.violation("C02", subject, cat(cls(), "/sanitizer"), kase(), "ASan/UBSan report (see job log)"); }
     }
 };
+
+// destinations: exact-size block pre-filled with the filler element, or a vector behind back_inserter
+struct BackInsF {
+    static constexpr char const* name = "back_inserter";
+    static constexpr int rank         = -1;
+};
+
+template <typename G>
+struct Dst {
+    Buf<E> buf;
+    explicit Dst(std::size_t k) : buf(k, filler) { }
+    template <typename L>
+    auto begin(L lib)
+    {
+        return G::at(lib, buf, 0);
+    }
+    template <typename L>
+    auto end(L lib)
+    {
+        return G::at(lib, buf, buf.size());
+    }
+    template <typename I>
+    long off(I it)
+    {
+        return G::off(buf, it);
+    }
+    void observe(Obs& o) { o.buf(buf); }
+};
+template <>
+struct Dst<BackInsF> {
+    std::vector<E> v;
+    explicit Dst(std::size_t k) { v.reserve(k + 8); }
+    template <typename L>
+    auto begin(L)
+    {
+        if constexpr (L::is_etl) {
+            return etl::back_inserter(v);
+        } else {
+            return std::back_inserter(v);
+        }
+    }
+    template <typename I>
+    long off(I)
+    {
+        return static_cast<long>(v.size());
+    }
+    void observe(Obs& o) { o.vec(v); }
+};
+
+/// the memory image whose iteration order under flavour F is `a` (so every precondition and expectation
+/// written in terms of `a` holds for the range the algorithm sees)
+template <typename F, typename T>
+decltype(auto) mem(std::vector<T> const& a)
+{
+    if constexpr (F::reversed) {
+        return std::vector<T>(a.rbegin(), a.rend());
+    } else {
+        return (a);
+    }
+}
+
+/// i-th element in the iteration order of flavour F
+template <typename F, typename T>
+T& at_view(Buf<T>& b, std::size_t i)
+{
+    return F::reversed ? b.b()[b.size() - 1 - i] : b.b()[i];
+}
+template <typename F, typename Cm>
+bool sorted_view(Buf<E>& b, std::size_t from, std::size_t to)
+{
+    for (std::size_t i = from; i + 1 < to; ++i) {
+        if (Cm::plain(at_view<F>(b, i + 1), at_view<F>(b, i))) { return false; }
+    }
+    return true;
+}
 
 // picks the library inside a generic lambda: C06_ALG(find)(lib, first, last, value)
 #define C06_ALG(name)                                                                                                           \
